@@ -29,6 +29,7 @@ import vlib
 
 PROP = "C18"
 ENGINE = "stream"
+RLIMIT_AS = 8 << 30
 
 # stream index in spec/StreamGen.tla!Streams -> kind (1..9 first values, 10..18 second values)
 KINDS = ["packfile", "pktline", "commit", "table", "block", "blkidx", "uintlist", "strlist", "profile"]
@@ -142,8 +143,9 @@ def corrupt_for_demo(defs_path):
 def absorb(v, out, scen, defs):
     """Every signature of a failing scenario is reported (a schedule can trip several decoder sites);
     the needed scenario lines are fetched in one pass."""
-    if out.errors:
-        raise vlib.Inconclusive("harness errors: %s" % out.errors[:3])
+    hard_errors = [e for e in out.errors if not (out.crashes and "too many child restarts" in e[1])]
+    if hard_errors:
+        raise vlib.Inconclusive("harness errors: %s" % hard_errors[:3])
     # replay documents are only needed for signatures that are not known findings: keep the best-explained few
     full, thin, counts = {}, {}, {}
     for idx, sig, detail in sorted(out.failures, key=lambda f: f[0]):
@@ -238,7 +240,10 @@ def run(tier, seed):
     env = {"VERIF_STREAM_DEFS": defs_path, "VERIF_STREAM_TRACE_MOD": str(mod)}
     if os.environ.get("VERIF_STREAM_TRACE_LIE"):
         env["VERIF_STREAM_TRACE_LIE"] = os.environ["VERIF_STREAM_TRACE_LIE"]
-    out = vlib.replay(ENGINE, scen, timeout=60, env=env, extra=["--seed", str(seed)], side_path=side)
+    # a decoder that took a partial Read for a whole field goes on with garbage lengths; the address-space limit turns
+    # an allocation of tens of GB from such a count into the immediate death of the child (attributed to the scenario)
+    # instead of a minute of page faults
+    out = vlib.replay(ENGINE, scen, timeout=60, env=env, extra=["--seed", str(seed)], side_path=side, rlimit_as=RLIMIT_AS)
     counts = absorb(v, out, scen, defs)
     nt, ne, tres = validate_reader_logs(side)
     nontrivial_passed = sum(c for cl, c in out.classes.items() if cl != "-")
@@ -294,7 +299,8 @@ def replay(path):
         f.write(json.dumps(doc["stream_def"], separators=(",", ":")) + "\n")
     with open(scen, "w") as f:
         f.write(json.dumps(doc["scenario"], separators=(",", ":")) + "\n")
-    out = vlib.replay(ENGINE, scen, nshards=1, timeout=60, env={"VERIF_STREAM_DEFS": defs_path, "VERIF_STREAM_TRACE_MOD": "0"})
+    out = vlib.replay(ENGINE, scen, nshards=1, timeout=60, env={"VERIF_STREAM_DEFS": defs_path, "VERIF_STREAM_TRACE_MOD": "0"},
+                      rlimit_as=RLIMIT_AS)
     if out.errors:
         raise vlib.Inconclusive(str(out.errors))
     if out.failures or out.crashes or out.timeouts:
